@@ -385,8 +385,9 @@ class RandomQueries:
         """outer query over FROM (inner): inner outputs are all named (aliases / bare columns), the outer one addresses them by
         name, by position or through the wildcard, possibly with hidden ordering / grouping keys"""
         r = self.rng
-        inner = self.query(r.choice(['plain', 'order', 'group', 'order'])) if depth <= 1 or r.random() < 0.6 else self.nested(depth - 1)
-        inner['pivot'] = []
+        inner = self.query(r.choice(['plain', 'order', 'group', 'order', 'plain', 'order', 'group', 'pivot'])) if depth <= 1 or r.random() < 0.6 else self.nested(depth - 1)
+        if not (inner['pivot'] and r.random() < 0.5):
+            inner['pivot'] = []          # (a pivoted inner statement is kept now and then: it must be rejected)
         if not inner.get('star') and r.random() < 0.15:
             cands = [t for t in inner['targets'] if t['as'] and t['as'] != 'gg']
             refd = json.dumps([inner['group'], inner['order']])
